@@ -40,3 +40,221 @@ func TestFindingC13InvalidDepthHeader(t *testing.T) {
 		t.Fatalf("MOVE with an invalid Depth header answered %d, want 400", code)
 	}
 }
+
+// ---------------------------------------------------------------------------------------------
+// C01 / C02 / C17: the file server against the RFC 4918 resource-tree model
+
+func findingsTree(t *testing.T) string {
+	t.Helper()
+	dir := t.TempDir()
+	os.WriteFile(filepath.Join(dir, "file"), []byte("content"), 0o644)
+	os.Mkdir(filepath.Join(dir, "col"), 0o755)
+	os.WriteFile(filepath.Join(dir, "col", "member"), []byte("m"), 0o644)
+	return dir
+}
+
+func exists(p string) bool { _, err := os.Lstat(p); return err == nil }
+
+func TestFindingC01GetBelowRegularFile(t *testing.T) {
+	dir := findingsTree(t)
+	code, _ := findingsServe(t, dir, "GET", "/file/x", nil, "")
+	if code != 404 {
+		t.Fatalf("GET of a path below a regular file answered %d, want 404", code)
+	}
+}
+
+func TestFindingC01MkcolBelowRegularFile(t *testing.T) {
+	dir := findingsTree(t)
+	code, _ := findingsServe(t, dir, "MKCOL", "/file/x", nil, "")
+	if code != 409 {
+		t.Fatalf("MKCOL below a regular file answered %d, want 409", code)
+	}
+}
+
+func TestFindingC17MkcolExistingLeaksHostPath(t *testing.T) {
+	dir := findingsTree(t)
+	code, body := findingsServe(t, dir, "MKCOL", "/col", nil, "")
+	if code != 405 {
+		t.Fatalf("MKCOL on an existing collection answered %d, want 405", code)
+	}
+	if strings.Contains(body, dir) {
+		t.Fatalf("response body discloses the host path: %q", body)
+	}
+}
+
+func TestFindingC01PutOntoCollection(t *testing.T) {
+	dir := findingsTree(t)
+	code, _ := findingsServe(t, dir, "PUT", "/col", nil, "x")
+	if code != 405 {
+		t.Fatalf("PUT onto a collection answered %d, want 405", code)
+	}
+}
+
+func TestFindingC01PutBelowRegularFile(t *testing.T) {
+	dir := findingsTree(t)
+	code, _ := findingsServe(t, dir, "PUT", "/file/x", nil, "x")
+	if code != 409 {
+		t.Fatalf("PUT below a regular file answered %d, want 409", code)
+	}
+}
+
+func TestFindingC01PutMissingParent(t *testing.T) {
+	dir := findingsTree(t)
+	code, _ := findingsServe(t, dir, "PUT", "/nope/x", nil, "x")
+	if code != 409 {
+		t.Fatalf("PUT with a missing parent collection answered %d, want 409", code)
+	}
+}
+
+func TestFindingC01DeleteBelowRegularFile(t *testing.T) {
+	dir := findingsTree(t)
+	code, _ := findingsServe(t, dir, "DELETE", "/file/x", nil, "")
+	if code != 404 {
+		t.Fatalf("DELETE of a path below a regular file answered %d, want 404", code)
+	}
+}
+
+func readOr(p string) string {
+	b, err := os.ReadFile(p)
+	if err != nil {
+		return "<" + err.Error() + ">"
+	}
+	return string(b)
+}
+
+func TestFindingC02MoveMissingSourceDestroysDestination(t *testing.T) {
+	dir := findingsTree(t)
+	code, body := findingsServe(t, dir, "MOVE", "/nope", map[string]string{"Destination": "/file"}, "")
+	if code != 404 {
+		t.Fatalf("MOVE of a missing source answered %d, want 404", code)
+	}
+	if got := readOr(filepath.Join(dir, "file")); got != "content" {
+		t.Fatalf("MOVE answered %d but the destination is now %q", code, got)
+	}
+	if strings.Contains(body, dir) {
+		t.Fatalf("response body discloses the host path: %q", body)
+	}
+}
+
+func TestFindingC17MoveErrorLeaksHostPath(t *testing.T) {
+	dir := findingsTree(t)
+	_, body := findingsServe(t, dir, "MOVE", "/nope", map[string]string{"Destination": "/other"}, "")
+	if strings.Contains(body, dir) {
+		t.Fatalf("response body discloses the host path: %q", body)
+	}
+}
+
+func TestFindingC02CopyOntoItselfDestroysResource(t *testing.T) {
+	dir := findingsTree(t)
+	code, _ := findingsServe(t, dir, "COPY", "/file", map[string]string{"Destination": "/file"}, "")
+	if code != 403 {
+		t.Errorf("COPY of a resource onto itself answered %d, want 403", code)
+	}
+	if got := readOr(filepath.Join(dir, "file")); got != "content" {
+		t.Fatalf("COPY answered %d but the resource is now %q", code, got)
+	}
+}
+
+func TestFindingC02MoveOntoItself(t *testing.T) {
+	dir := findingsTree(t)
+	code, _ := findingsServe(t, dir, "MOVE", "/col", map[string]string{"Destination": "/col"}, "")
+	if code != 403 {
+		t.Errorf("MOVE of a resource onto itself answered %d, want 403", code)
+	}
+	if got := readOr(filepath.Join(dir, "col", "member")); got != "m" {
+		t.Fatalf("MOVE answered %d but the member is now %q", code, got)
+	}
+}
+
+func TestFindingC01CopyCollectionRecursively(t *testing.T) {
+	dir := findingsTree(t)
+	code, _ := findingsServe(t, dir, "COPY", "/col", map[string]string{"Destination": "/col2"}, "")
+	if code != 201 {
+		t.Errorf("COPY of a non-empty collection answered %d, want 201", code)
+	}
+	if got := readOr(filepath.Join(dir, "col2", "member")); got != "m" {
+		t.Fatalf("the member was not copied: %q", got)
+	}
+}
+
+func TestFindingC01CopyMissingDestinationParent(t *testing.T) {
+	dir := findingsTree(t)
+	code, _ := findingsServe(t, dir, "COPY", "/col", map[string]string{"Destination": "/nope/col2"}, "")
+	if code != 409 {
+		t.Fatalf("COPY of a collection below a missing parent answered %d, want 409", code)
+	}
+}
+
+func TestFindingC01MoveMissingDestinationParent(t *testing.T) {
+	dir := findingsTree(t)
+	code, _ := findingsServe(t, dir, "MOVE", "/file", map[string]string{"Destination": "/nope/f"}, "")
+	if code != 409 {
+		t.Fatalf("MOVE below a missing parent answered %d, want 409", code)
+	}
+}
+
+func TestFindingC02CopyIntoOwnDescendant(t *testing.T) {
+	dir := findingsTree(t)
+	code, _ := findingsServe(t, dir, "COPY", "/col", map[string]string{"Destination": "/col/sub"}, "")
+	if code < 400 || code >= 500 {
+		t.Errorf("COPY of a collection into itself answered %d, want 4xx", code)
+	}
+	if exists(filepath.Join(dir, "col", "sub")) {
+		t.Fatalf("COPY answered %d but created the destination", code)
+	}
+}
+
+func TestFindingC02MoveOntoOwnAncestorDestroysTree(t *testing.T) {
+	dir := findingsTree(t)
+	code, _ := findingsServe(t, dir, "MOVE", "/col/member", map[string]string{"Destination": "/col"}, "")
+	if code >= 400 && readOr(filepath.Join(dir, "col", "member")) != "m" {
+		t.Fatalf("MOVE answered %d but the source is gone", code)
+	}
+	if code < 400 && readOr(filepath.Join(dir, "col")) != "m" {
+		t.Fatalf("MOVE answered %d but the destination does not hold the source", code)
+	}
+}
+
+type failingBody struct{ n int }
+
+func (b *failingBody) Read(p []byte) (int, error) {
+	if b.n == 0 {
+		return 0, os.ErrClosed
+	}
+	b.n--
+	p[0] = 'Z'
+	return 1, nil
+}
+
+func TestFindingC02PutBodyFailureDestroysOldContent(t *testing.T) {
+	dir := findingsTree(t)
+	req := httptest.NewRequest("PUT", "/file", &failingBody{n: 3})
+	w := httptest.NewRecorder()
+	h := Handler{FileSystem: LocalFileSystem(dir)}
+	h.ServeHTTP(w, req)
+	if w.Result().StatusCode < 400 {
+		t.Fatalf("PUT with a failing body answered %d", w.Result().StatusCode)
+	}
+	if got := readOr(filepath.Join(dir, "file")); got != "content" {
+		t.Fatalf("PUT answered %d but the old content is now %q", w.Result().StatusCode, got)
+	}
+}
+
+func TestFindingC17CopyFileMissingParentLeaksHostPath(t *testing.T) {
+	dir := findingsTree(t)
+	code, body := findingsServe(t, dir, "COPY", "/file", map[string]string{"Destination": "/nope/f"}, "")
+	if code != 409 {
+		t.Errorf("COPY of a file below a missing parent answered %d, want 409", code)
+	}
+	if strings.Contains(body, dir) {
+		t.Fatalf("response body discloses the host path: %q", body)
+	}
+}
+
+func TestFindingC01MoveBelowRegularFile(t *testing.T) {
+	dir := findingsTree(t)
+	code, _ := findingsServe(t, dir, "MOVE", "/col", map[string]string{"Destination": "/file/x"}, "")
+	if code != 409 {
+		t.Fatalf("MOVE below a regular file answered %d, want 409", code)
+	}
+}
